@@ -245,9 +245,13 @@ func (c *Counter) releaseLock(state counterStateBits) {
 			debugPrintf("releaseLock %s: reset havePtr (extra=%d)\n", c.name, state.extra())
 
 			// Optimization: only bother loading a new pointer
-			// if we have a value to add to it.
+			// if we have a value to add to it, or if the counter was
+			// being written through its old pointer (otherwise later
+			// Adds would find havePtr set with a nil pointer and keep
+			// their counts in memory although a file is open).
+			hadPtr := c.ptr.count != nil
 			c.ptr = counterPtr{nil, nil}
-			if state.extra() != 0 {
+			if state.extra() != 0 || hadPtr {
 				c.ptr = c.file.lookup(c.name)
 				debugPrintf("releaseLock %s: ptr=%v\n", c.name, c.ptr)
 			}
